@@ -59,6 +59,9 @@ type unitInfo struct {
 	// the stored state at such a moment is the class of known finding
 	// sigReloadPending)
 	Pending bool
+	// BlockSeenDue: the iteration's on-chain-changes transaction queues a
+	// "block seen" report (reference run semantics, like Pending)
+	BlockSeenDue bool
 }
 
 type crashPoint struct {
@@ -100,7 +103,8 @@ type victimTracer struct {
 	polyEvals              map[int]string
 	problems               []string // oracle (3) violations noticed while the run goes on
 	crashOpen              []int64
-	planLeft               int  // crash points not reached when the scheduled part of the run ended
+	planLeft               int // crash points not reached when the scheduled part of the run ended
+	blockSeenLost          bool
 	sawSameDesc            bool // at some broadcast the outbox held two rows with the same description
 	crashedEvalsWaiting    bool // some crash happened while evaluations of the victim waited in poly_evals for a receiver's check-in
 	crashedMidRange        bool // some crash fell between the block transactions of one multi-block sync range
@@ -311,8 +315,24 @@ func (vt *victimTracer) step(r *Run, n *Node, budget int) error {
 	bounds := []int64{vt.rel()}
 	var stepErr error
 	crashed := false
+	blockSeenRows := func() int {
+		c := 0
+		for _, row := range n.Srv.Rows("tendermint_outgoing_messages") {
+			if d, _ := row["description"].(string); strings.HasPrefix(d, "block seen") {
+				c++
+			}
+		}
+		return c
+	}
+	blockSeenBefore, blockSeenDue := 0, false
 	for i, part := range parts {
+		if i == 1 {
+			blockSeenBefore = blockSeenRows()
+		}
 		err := guarded(part)
+		if i == 1 && blockSeenRows() > blockSeenBefore {
+			blockSeenDue = true
+		}
 		bounds = append(bounds, vt.rel())
 		if sp, ok := err.(*stepPanic); ok && sp.v == crashSentinel {
 			crashed = true
@@ -366,6 +386,7 @@ func (vt *victimTracer) step(r *Run, n *Node, budget int) error {
 				}
 			}
 		case u <= bounds[2]: // onchain
+			info.BlockSeenDue = blockSeenDue
 			switch u {
 			case bounds[1] + 1:
 				info.Class = "onchain-begin"
@@ -483,7 +504,37 @@ func (vt *victimTracer) observeSecret(where string) {
 	}
 }
 
-func (vt *victimTracer) afterRestartChecks() { vt.observeSecret("after restart") }
+func (vt *victimTracer) afterRestartChecks() {
+	vt.observeSecret("after restart")
+	vt.checkBlockSeen("after restart")
+}
+
+// checkBlockSeen: last_block_seen is the keyper's record of the newest
+// main-chain block it has reported; it must never be ahead of the newest
+// block-seen report that is queued in the outbox or was handed to shuttermint.
+func (vt *victimTracer) checkBlockSeen(where string) {
+	n := vt.node()
+	last := int64(-1)
+	for _, row := range n.Srv.Rows("last_block_seen") {
+		last = row["block_number"].(int64)
+	}
+	best := int64(-1)
+	for _, row := range n.Srv.Rows("tendermint_outgoing_messages") {
+		m := &shmsg.Message{}
+		if b, _ := row["msg"].([]byte); proto.Unmarshal(b, m) == nil && m.GetBlockSeen() != nil {
+			best = max(best, int64(m.GetBlockSeen().BlockNumber))
+		}
+	}
+	for _, tx := range vt.r.chain.Submitted {
+		if tx.Signer == n.Addr && tx.Msg != nil && tx.Msg.GetBlockSeen() != nil {
+			best = max(best, int64(tx.Msg.GetBlockSeen().BlockNumber))
+		}
+	}
+	if last > best && len(vt.problems) < 5 {
+		vt.problems = append(vt.problems, fmt.Sprintf("%s: last_block_seen=%d but the newest block-seen report queued or sent is for block %d - the report for %d is lost and will not be queued again", where, last, best, last))
+		vt.blockSeenLost = true
+	}
+}
 
 // ---------------------------------------------------------------------------
 
@@ -594,7 +645,10 @@ func runC08(sc Scenario, victim int, plan []crashPoint, ref *c08Result, fail fai
 	vt.instrument()
 	vt.arm()
 	r.StepHook = vt.step
-	r.AfterBlock = func(r *Run, closed int64) { vt.observeSecret(fmt.Sprintf("after block %d", closed)) }
+	r.AfterBlock = func(r *Run, closed int64) {
+		vt.observeSecret(fmt.Sprintf("after block %d", closed))
+		vt.checkBlockSeen(fmt.Sprintf("after block %d", closed))
+	}
 	// the plain fair schedule also during the DKG blocks
 	r.plainSchedule = true
 	r.checkPersisted = true
@@ -638,6 +692,7 @@ func runC08(sc Scenario, victim int, plan []crashPoint, ref *c08Result, fail fai
 		for u := 0; u < plan[0].K-1 && u < len(ref.units) && u < len(vt.units); u++ {
 			a, b := ref.units[u], vt.units[u]
 			a.Pending, b.Pending = false, false // depends on how the iteration ended
+			a.BlockSeenDue, b.BlockSeenDue = false, false
 			if a != b {
 				res.prefixOK = false
 				res.divergence = fmt.Sprintf("round trip %d: reference %+v, this run %+v", u+1, ref.units[u], vt.units[u])
@@ -681,7 +736,9 @@ func runC08(sc Scenario, victim int, plan []crashPoint, ref *c08Result, fail fai
 			len(sc.honest()), res.stats.Successes, res.stats.Failures, res.stats.NoRow, hist())
 	}
 	// (3) secret state
-	if len(vt.problems) > 0 {
+	if vt.blockSeenLost {
+		fail("block-seen-report-lost", "%v\n%s", vt.problems, hist())
+	} else if len(vt.problems) > 0 {
 		fail("secret-state-inconsistent", "%v\n%s", vt.problems, hist())
 	}
 	chainRef := r.reference()
@@ -763,6 +820,22 @@ func runC08(sc Scenario, victim int, plan []crashPoint, ref *c08Result, fail fai
 		}
 	}
 	other := r.nodes[(victim+2)%sc.N] // honest in every variant
+	// every block-seen report the uncrashed keyper got through (activation blocks 0 and 100 of
+	// the two keyper sets) is also on chain from the victim
+	maxSeen := func(n *Node) int64 {
+		m := int64(-1)
+		for _, tx := range r.chain.AllTxs {
+			if tx.Signer == n.Addr && tx.Code == 0 && tx.Msg != nil && tx.Msg.GetBlockSeen() != nil {
+				m = max(m, int64(tx.Msg.GetBlockSeen().BlockNumber))
+			}
+		}
+		return m
+	}
+	for _, act := range []int64{0, keyperSetActivation} {
+		if maxSeen(other) >= act && maxSeen(vn) < act {
+			fail("block-seen-report-lost", "k%d (never crashed) reported main-chain block %d >= activation block %d to shuttermint, the victim's newest accepted report is %d\n%s", other.Pos, maxSeen(other), act, maxSeen(vn), hist())
+		}
+	}
 	if int64(len(applied)) != other.syncedTo() {
 		fail("victim-stuck", "victim applied blocks up to %d, a keyper that never crashed up to %d\n%s", len(applied), other.syncedTo(), hist())
 	}
@@ -856,7 +929,7 @@ func canonRows(rows []map[string]any) string {
 
 // ---------------------------------------------------------------------------
 
-const c08Rule = "case = (victim keyper, crash point) in a DKG run in which the crash-free twin succeeds (n=3,t=2,L=8, every keyper one sync+onchain+send iteration per block; variants: all honest with two keyper-set orders and check-in fork on/off; one Byzantine keyper that deals a wrong eval to the victim and accuses it falsely, so that the victim also has an accusation and an apology to get through): every client->database round trip k of the victim observed in a crash-free reference run x {connection lost before the request, request executed (COMMIT applied) but reply lost}, and every accepted BroadcastTxCommit x {process dies before the outbox row is deleted}; a fourth variant sends one message per keyper and block (commitment-only blocks exist); in a fifth and sixth the victim is a slow node that runs its main loop only every 2nd / 3rd block (the sixth together with the Byzantine dealer, L=10), so that it catches up over sync ranges of several blocks with one transaction each and crash points lie between them; in a seventh and eighth one / two other keypers come up late and check in 1-3 blocks after the eon start (n=4, L=10 for two), so that evaluations of the victim wait in poly_evals for a receiver's encryption key while it crashes; in a ninth and tenth the late check-in follows the eon start by one block and the victim is a slow node (ninth) or not (tenth), so that two outbox rows with the same description ('poly eval (eon=N)' for the receivers known at the eon start and for the late one) are pending together - always in the ninth, after a crash between the EonStarted block's transaction and the send in the tenth; quick (every seed) runs the one-message variant, the Byzantine variant and the every-2nd-block variant with victim k1 and every 7th database point, plus the one-late-keyper variant and the late-keyper-with-slow-victim variant restricted to the blocks h0+2..h0+8 around the late check-in with every 3rd point, thorough all ten variants, all three victims, every point and 400 sampled pairs of crashes per variant and victim. In addition, in every run (crash-free twin included), after every main-loop iteration of every honest keyper that ended without error, and after every per-block transaction inside a sync range, the PureDKG objects in the keyper's memory (read through reflect) must equal the puredkg rows decoded from its database: what a keyper knows after a committed block must be persisted. Non-trivial = the crash fell inside an open database transaction (block-tx, block-commit, onchain-tx, onchain-commit), on the outbox delete, or between an accepted broadcast and the delete (as opposed to an idle poll or a BEGIN). Distinct = (variant, victim, crash points)."
+const c08Rule = "case = (victim keyper, crash point) in a DKG run in which the crash-free twin succeeds (n=3,t=2,L=8, every keyper one sync+onchain+send iteration per block; variants: all honest with two keyper-set orders and check-in fork on/off; one Byzantine keyper that deals a wrong eval to the victim and accuses it falsely, so that the victim also has an accusation and an apology to get through): every client->database round trip k of the victim observed in a crash-free reference run x {connection lost before the request, request executed (COMMIT applied) but reply lost}, and every accepted BroadcastTxCommit x {process dies before the outbox row is deleted}; a fourth variant sends one message per keyper and block (commitment-only blocks exist); in a fifth and sixth the victim is a slow node that runs its main loop only every 2nd / 3rd block (the sixth together with the Byzantine dealer, L=10), so that it catches up over sync ranges of several blocks with one transaction each and crash points lie between them; in a seventh and eighth one / two other keypers come up late and check in 1-3 blocks after the eon start (n=4, L=10 for two), so that evaluations of the victim wait in poly_evals for a receiver's encryption key while it crashes; in a ninth and tenth the late check-in follows the eon start by one block and the victim is a slow node (ninth) or not (tenth), so that two outbox rows with the same description ('poly eval (eon=N)' for the receivers known at the eon start and for the late one) are pending together - always in the ninth, after a crash between the EonStarted block's transaction and the send in the tenth; quick (every seed) runs the one-message variant, the Byzantine variant and the every-2nd-block variant with victim k1 and every 7th database point, plus every point of the on-chain-changes transactions that queue a block-seen report (the observed main-chain block number passes activation block 0 at bootstrap and activation block 100 of keyper set 1 six blocks after the eon start) in the one-message variant, plus the one-late-keyper variant and the late-keyper-with-slow-victim variant restricted to the blocks h0+2..h0+8 around the late check-in with every 3rd point, thorough all ten variants, all three victims, every point and 400 sampled pairs of crashes per variant and victim. In addition, in every run (crash-free twin included), after every main-loop iteration of every honest keyper that ended without error, and after every per-block transaction inside a sync range, the PureDKG objects in the keyper's memory (read through reflect) must equal the puredkg rows decoded from its database: what a keyper knows after a committed block must be persisted. After every block and every restart last_block_seen must not be ahead of the newest block-seen report queued or sent, and at the end the victim must have got through every block-seen report (activation blocks 0 and 100) that a keyper that never crashed got through. Non-trivial = the crash fell inside an open database transaction (block-tx, block-commit, onchain-tx, onchain-commit), on the outbox delete, or between an accepted broadcast and the delete (as opposed to an idle poll or a BEGIN). Distinct = (variant, victim, crash points)."
 
 func c08Assumptions(rec *Recorder) {
 	rec.Assume(
@@ -988,7 +1061,8 @@ func TestC08_CrashRecovery(t *testing.T) {
 							continue
 						}
 					}
-					if p.Kind == "rpc" || i%stride == seed%stride {
+					due := variant == variants[0] && p.Kind == "db" && ref.units[p.K-1].BlockSeenDue
+					if p.Kind == "rpc" || i%stride == seed%stride || due {
 						plans = append(plans, []crashPoint{p})
 					}
 				}
@@ -1092,6 +1166,9 @@ func TestC08_CrashRecovery(t *testing.T) {
 				}
 				if res.crashedMidRangeDKG {
 					labels = append(labels, "crash-after-dkg-relevant-non-final-block-of-range")
+				}
+				if first.Kind == "db" && info.BlockSeenDue {
+					labels = append(labels, "crash-in-transaction-that-queues-a-block-seen-report")
 				}
 				if first.Kind == "db" {
 					if first.After {
